@@ -37,6 +37,10 @@ type Case struct {
 	// WrapErr: the repository adds context (%w) to an error its listing callback returned, as a
 	// repository is free to do; what the callback meant travels inside
 	WrapErr bool `json:"wrapErr,omitempty"`
+	// Created: the listed signature descriptors carry org.opencontainers.image.created
+	// annotations - "asc" oldest first, "desc" newest first, "mixed" in no order. The listing
+	// order is the order the repository lists in, whatever the descriptors say about themselves
+	Created string `json:"created,omitempty"`
 }
 
 // descIdx is the index of the descriptor the repository lists at position j.
@@ -75,7 +79,13 @@ func (r *repo) ListSignatures(ctx context.Context, desc ocispec.Descriptor, fn f
 	for _, p := range r.c.Pages {
 		page := []ocispec.Descriptor{}
 		for k := 0; k < p; k++ {
-			page = append(page, sigDesc(descIdx(r.c, i)))
+			d := sigDesc(descIdx(r.c, i))
+			if r.c.Created != "" {
+				k := descIdx(r.c, i)
+				h := map[string]int{"asc": k, "desc": 1000 - k, "mixed": (k*7 + 3) % 11}[r.c.Created]
+				d.Annotations = map[string]string{ocispec.AnnotationCreated: fmt.Sprintf("2026-01-%02dT%02d:00:00Z", 1+h/24%28, h%24)}
+			}
+			page = append(page, d)
 			i++
 		}
 		if err := fn(page); err != nil {
@@ -212,7 +222,7 @@ func count(log []string, prefix string) int {
 // check runs one case against notation.Verify and returns (finding key, message) or "".
 func check(c Case, withSkipper bool) (string, string) {
 	art := ocispec.Descriptor{MediaType: "application/vnd.oci.image.manifest.v1+json", Digest: artDigest, Size: 528,
-		Annotations: map[string]string{"k": "v"}}
+		Annotations: map[string]string{"k": "v"}, ArtifactType: "application/vnd.example.thing", Platform: &ocispec.Platform{Architecture: "arm64", OS: "linux"}}
 	r := &repo{c: c, art: art}
 	v := &ver{skip: c.Skip, outcomes: map[int]*notation.VerificationOutcome{}, art: art}
 	var nv notation.Verifier = v
@@ -344,6 +354,9 @@ func classes(c Case, want int) []string {
 	if len(c.Pages) >= 2 {
 		cl = append(cl, "multi-page")
 	}
+	if c.Created != "" {
+		cl = append(cl, "listed-descriptors-carry-creation-times", "created="+c.Created)
+	}
 	if c.WrapErr {
 		cl = append(cl, "repository-wraps-callback-errors")
 	}
@@ -364,7 +377,7 @@ func classes(c Case, want int) []string {
 
 func record(rec *stats.Recorder, c Case) {
 	nt := len(c.Status) >= 2 || len(c.Pages) >= 2
-	rec.Case(classes(c, model(c)), nt, stats.Fingerprint(c.Status, fmt.Sprint(c.Pages), c.N, c.Ref, c.Skip, c.Dup, c.WrapErr), func() any { return c })
+	rec.Case(classes(c, model(c)), nt, stats.Fingerprint(c.Status, fmt.Sprint(c.Pages), c.N, c.Ref, c.Skip, c.Dup, c.WrapErr, c.Created), func() any { return c })
 }
 
 // compositions returns every split of n signatures into non-empty pages, plus variants with
@@ -483,6 +496,7 @@ func TestC10_Random(t *testing.T) {
 			Ref:  rp.Pick(rt, "ref", "tag", "digest", "tagdigest", "tag", "digest", "mismatch", "mismatch-tagdigest", "mismatch-sha512", "mismatch-sha384", "noref", "malformed"),
 			Skip: rapid.IntRange(0, 9).Draw(rt, "skip") == 0}
 		c.WrapErr = rapid.IntRange(0, 3).Draw(rt, "wrapErr") == 0
+		c.Created = rp.Pick(rt, "created", "", "", "asc", "asc", "mixed", "desc")
 		if k >= 2 && rapid.IntRange(0, 3).Draw(rt, "duplicates") == 0 {
 			dup := make([]byte, k)
 			for i := range dup {
